@@ -66,17 +66,18 @@ def check_case(ctx, out, desc, a, parts_seed):
         out.count('no_sources'); return
     out.nontrivial((gen_net.shape(desc), len(src_ids)))
     out.count(f'sources:{len(src_ids)}')
-    scale = max([abs(x) for x in list(pot.values()) + list(v.values()) + list(i.values())] + [1.0])
+    scale = max([abs(x) for x in list(pot.values()) + list(v.values())] + [1e-300])
+    iscale = max([abs(x) for x in i.values()] + [gen_net.ymax_json(jnet) * scale])
     canon = dict(kinds=sorted({d['kind'] for d in desc['branches']}))
     # ---- (a) scaling
     try:
         pot2, v2, i2, p2 = solve(gen_net.to_impl(scaled(desc, a)))
     except Exception as e:
         out.spec_fail(dict(canon, op='scale', symptom='raises', exc=tag(e)), 'scaled network fails to solve', gen_net.pretty(desc), desc=desc, a=a, parts_seed=parts_seed); return
-    for name, x, y, f, s in (('potential', pot, pot2, a, scale), ('voltage', v, v2, a, scale), ('current', i, i2, a, scale),
-                             ('power', p, p2, abs(a) ** 2, scale * scale)):
+    for name, x, y, f, s in (('potential', pot, pot2, a, scale), ('voltage', v, v2, a, scale), ('current', i, i2, a, iscale),
+                             ('power', p, p2, abs(a) ** 2, scale * iscale)):
         for k in x:
-            if not core.close(y[k], f * x[k], abs(f) * s, 1e-8):
+            if not core.rclose(y[k], f * x[k], abs(f) * s, 1e-8):
                 out.spec_fail(dict(canon, op='scale', symptom='not_scaled', quantity=name), f'{name} of {k!r} does not scale with the sources',
                               gen_net.pretty(desc), impl=dict(orig=str(x[k]), scaled=str(y[k]), a=str(a)), desc=desc, a=a, parts_seed=parts_seed)
                 return
@@ -103,9 +104,9 @@ def check_case(ctx, out, desc, a, parts_seed):
                 if 'ok' not in m or not same_struct(net_struct(res), model_struct(m['ok'])):
                     out.disagree('transformer:' + fn, gen_net.pretty(desc), str(net_struct(res)), str(m), keep=part)
         sums = r[:3] if sums is None else tuple({k: sums[j][k] + r[j][k] for k in sums[j]} for j in range(3))
-    for name, x, y in (('potential', pot, sums[0]), ('voltage', v, sums[1]), ('current', i, sums[2])):
+    for name, x, y, s in (('potential', pot, sums[0], scale), ('voltage', v, sums[1], scale), ('current', i, sums[2], iscale)):
         for k in x:
-            if not core.close(y[k], x[k], scale, 1e-8):
+            if not core.rclose(y[k], x[k], s, 1e-8):
                 out.spec_fail(dict(canon, op='superpose', symptom='sum_mismatch', quantity=name,
                                    branch_is_lossy_source=(name == 'current' and k in lossy)),
                               f'{name} of {k!r} is not the sum of the single-part responses',
@@ -115,7 +116,7 @@ def check_case(ctx, out, desc, a, parts_seed):
     try:
         n0 = trf.open_circuitify_current_sources(trf.short_circuitify_voltage_sources(net))
         pot0, v0, i0, _ = solve(n0)
-        if any(abs(x) > 1e-12 for x in list(pot0.values()) + list(v0.values()) + list(i0.values())):
+        if any(abs(x) > 1e-12 * scale for x in list(pot0.values()) + list(v0.values())) or any(abs(x) > 1e-12 * iscale for x in i0.values()):
             out.spec_fail(dict(canon, op='zero_all', symptom='nonzero'), 'network with all sources deactivated has a non-zero solution',
                           gen_net.pretty(desc), impl=dict(pot=str(pot0)), desc=desc, a=a, parts_seed=parts_seed)
     except Exception as e:
